@@ -200,7 +200,7 @@ class Variant:
 
     def manifest(self):
         by_out = self.by_out()
-        lines = ["# variant %s" % self.name]
+        lines = ["# variant %s" % getattr(self, "title", self.name)]
         if self.header:
             lines.append(self.header)
         for name, depth in sorted(self.pools.items()):
